@@ -53,7 +53,7 @@ def _case(draw):
         err = 'len_mismatch'
     return dict(spec=spec, container=container, default_sc=default_sc, sc=sc, sc_spell=[draw(st.booleans()) for _ in sc],
                 curves=[[c, p] for c, p in zip(cs, ps)], form=form, req=req, req_spell=[draw(st.sampled_from(['name', 'pos', 'neg', 'name', 'pos'])) for _ in req],
-                perm_seed=draw(st.integers(0, 2 ** 16)), err=err, seq=draw(st.sampled_from(['list', 'list', 'tuple'])), derived=draw(st.sampled_from([None, None, None, ['slice', 1], ['slice', 2], ['list', 1]])), via_get_transform=draw(st.integers(0, 3)) == 0,
+                perm_seed=draw(st.integers(0, 2 ** 16)), err=err, seq=draw(st.sampled_from(['list', 'list', 'tuple'])), derived=draw(st.sampled_from([None, None, None, ['slice', 1], ['slice', 2], ['list', 1], ['perm', 1], ['permname', 2]])), via_get_transform=draw(st.integers(0, 3)) == 0,
                 to_rfi_first=draw(st.booleans()))
 
 
